@@ -755,24 +755,11 @@ def triggers(graph, fmt, base=None, bind=None):
                 if v == v and v not in (float("inf"), float("-inf")) and float("%e" % v) != v:
                     out.append("F15")
                     break
-        if any(x[3] == XSD + "decimal" and is_canonical(x[1], x[3]) and not any(c in x[1] for c in ".eE") for x in lits):
-            out.append("F15d")
-        if rest_cycle(graph):
-            out.append("F15e")
-        if shared_list_cell(graph) or (inner_list_cell(graph) and
-                                       (bnode_subject_referenced_twice(graph) or unreachable_bnode(graph))):
-            out.append("F15f")
-        if bad_rest_object(graph):
-            out.append("F15h")
-        if any(t[1][1].endswith(".") for t in graph):
-            out.append("F15o")
+    # F15d, F15e, F15f, F15h, F15o (Turtle family) and F15k, F15m (pretty-xml) were repaired in /repo
+    # (0b40a911, ec2790c6, c1984258, fdf8d16b, 2521fbb8, 83d416d7, d4c8e316): no trigger any more
     if fmt == "pretty-xml":
-        if type_object_unsafe(graph):
-            out.append("F15k")
         if list_as_object(graph):
             out.append("F15l")
-        if unreachable_bnode_px(graph) or bnode_subject_referenced_twice(graph):
-            out.append("F15m")
         if any(pfx == "" for pfx, _ in (bind or [])) and any(x[3] == RDFNS + "XMLLiteral" and "<" in x[1] for x in lits):
             out.append("F15p")
     if fmt == "json-ld":
@@ -1235,7 +1222,8 @@ class RoundTrip(Suite):
     oeq = "rt_obs_eqb"
     spec = "rt_spec"
     kf = "rt_kf"
-    kf_ids = {v: k for k, v in TRIGGER_NUM.items()}
+    FIXED = {"F15b", "F15d", "F15e", "F15f", "F15h", "F15k", "F15m", "F15o"}
+    kf_ids = {v: k for k, v in TRIGGER_NUM.items() if k not in FIXED}
     corr = "Graph.serialize / Graph.parse for nt, turtle, longturtle, n3, xml, pretty-xml, json-ld, hext (conformance, no model)"
     quick_n = 1600
     thorough_n = 16000
